@@ -1548,3 +1548,213 @@ Proof.
   exists (RFile n2 A2 sp). split; [|split; [reflexivity|exact S]].
   unfold impl_second. rewrite R. exact R2.
 Qed.
+
+(* ------------------------------------------------------------------ closure of the side conditions: variable part *)
+From Coq Require Import Btauto.
+
+(* the variable the reader hands back for v (as the second writer sees it) *)
+Definition revar (v : var) : var :=
+  Var (v_name v) (v_units v) (Some (code_str v)) (code_of (code_str v)) (map back_cell (map spec_cell (v_cells v))).
+Definition refile (A : list (str * str)) (f : file) (ind : str) (iv : var) : file :=
+  File A (revar iv :: map revar (depvars ind f)).
+
+Lemma spec_var_revar v s : spec_var v = Some s -> to_var s = revar v.
+Proof.
+  unfold spec_var. destruct (v_units v) as [u|] eqn:Eu; [|discriminate].
+  destruct (parse_num (code_str v)) as [c|] eqn:P; [|discriminate]. intros E. injection E as <-.
+  unfold to_var, revar. cbn [r_name r_units r_code_s r_code r_cells]. rewrite Eu. unfold code_of. rewrite P. reflexivity.
+Qed.
+
+Lemma to_file_refile f ind iv sp n A :
+  indep_name f = Some ind -> find_var ind f = Some iv -> spec_roundtrip f = Some sp ->
+  to_file (RFile n A sp) = refile A f ind iv.
+Proof.
+  intros Hi Hf Hsp. unfold spec_roundtrip in Hsp. rewrite Hi, Hf in Hsp. apply all_some_inv in Hsp.
+  unfold to_file, refile. cbn [r_attrs r_vars]. f_equal.
+  remember (iv :: depvars ind f) as l eqn:El. change (revar iv :: map revar (depvars ind f)) with (map revar (iv :: depvars ind f)).
+  rewrite <- El. clear El. induction Hsp as [|v s l' sp' Hv Hr IH]; [reflexivity|].
+  cbn [map]. rewrite (spec_var_revar _ _ Hv), IH. reflexivity.
+Qed.
+
+Lemma forallb_map_comp {A B} (p : B -> bool) (g : A -> B) l : forallb p (map g l) = forallb (fun x => p (g x)) l.
+Proof. induction l as [|x t IH]; [reflexivity|]. cbn [map forallb]. rewrite IH. reflexivity. Qed.
+
+Lemma filter_all {A} (p : A -> bool) l : forallb p l = true -> filter p l = l.
+Proof.
+  induction l as [|x t IH]; [reflexivity|]. cbn [forallb filter]. intros H. apply andb_true_iff in H as [H1 H2].
+  rewrite H1, (IH H2). reflexivity.
+Qed.
+
+Lemma forallb_filter_self {A} (p : A -> bool) l : forallb p (filter p l) = true.
+Proof.
+  induction l as [|x t IH]; [reflexivity|]. cbn [filter]. destruct (p x) eqn:E; [cbn [forallb]; rewrite E, IH; reflexivity|exact IH].
+Qed.
+
+Lemma refile_find A f ind iv : v_name iv = ind -> find_var ind (refile A f ind iv) = Some (revar iv).
+Proof.
+  intros H. unfold find_var, refile. cbn [f_vars find revar v_name]. rewrite H.
+  assert (E : str_eqb ind ind = true) by (apply str_eqb_eq; reflexivity). rewrite E. reflexivity.
+Qed.
+
+Lemma refile_deps A f ind iv : v_name iv = ind -> depvars ind (refile A f ind iv) = map revar (depvars ind f).
+Proof.
+  intros H. unfold depvars at 1. unfold refile. cbn [f_vars filter revar v_name]. rewrite H.
+  assert (E : str_eqb ind ind = true) by (apply str_eqb_eq; reflexivity). rewrite E. cbn [negb].
+  apply filter_all. rewrite forallb_map_comp. cbn [revar v_name]. unfold depvars. apply forallb_filter_self.
+Qed.
+
+Lemma revar_filled v : map fmt6e (filled (revar v)) = map fmt6e (filled v).
+Proof.
+  unfold filled. cbn [revar v_cells]. rewrite !map_map. apply map_ext. intros [d|]; cbn [spec_cell back_cell].
+  - apply fmt6e_idem.
+  - reflexivity.
+Qed.
+
+Lemma forallb_ext_all {A} (p q : A -> bool) l : (forall x, p x = q x) -> forallb p l = forallb q l.
+Proof. intros H. induction l as [|x t IH]; [reflexivity|]. cbn [forallb]. rewrite H, IH. reflexivity. Qed.
+
+Lemma revar_cells_fine c v : cells_fine c (revar v) = cells_fine c v.
+Proof.
+  unfold cells_fine. cbn [revar v_cells]. rewrite !forallb_map_comp. apply forallb_ext_all.
+  intros [d|]; cbn [spec_cell back_cell]; [rewrite fmt6e_idem|]; reflexivity.
+Qed.
+
+(* the variable-dependent header strings and side conditions (no attribute involved) *)
+Definition hdr_vars (f : file) (ind : str) : list str :=
+  let deps := depvars ind f in
+  [ indep_line f ind; zstr (Z.of_nat (length deps)); join sep (map (fun _ => s2z "1") deps); join sep (map code_str deps) ]
+  ++ map (fun v => join sep [v_name v; units_str v]) deps
+  ++ [ join sep (ind :: map v_name deps) ].
+Definition header_vars_ok (f : file) (ind : str) : bool :=
+  let deps := depvars ind f in
+  match deps with [] => false | _ => true end
+  && forallb clean_code (map code_str deps)
+  && forallb desc_ok deps
+  && forallb word_tok (ind :: map v_name deps)
+  && forallb (fun s => negb (has_char cSLASH s)) (ind :: map v_name deps).
+Definition vars_ok (f : file) (ind : str) (iv : var) : bool :=
+  header_vars_ok f ind && data_ok f ind iv && spec_ok f ind iv && forallb no_nl (hdr_vars f ind).
+
+(* the attribute-dependent rest *)
+Definition hdr_attrs (f : file) (sd : str) : list str :=
+  let a := f_attrs f in
+  [ attr_or "PI_NAME" "Unknown" a; attr_or "ORGANIZATION_NAME" "Unknown" a;
+    attr_or "SOURCE_DESCRIPTION" "Unknown" a; attr_or "MISSION_NAME" "Unknown" a;
+    attr_or "VOLUME_INFO" "1, 1" a; sd ++ [cSP] ++ attr_or "WDATE" "2000, 01, 01" a;
+    attr_or "TIME_INTERVAL" "0" a ]
+  ++ map fst (myattrs f).
+Definition attr_lines_ok (f : file) : bool :=
+  forallb not_continuation (map (fun kv : str * str => fst kv ++ [cCOLON; cSP] ++ one_line (snd kv)) (myattrs f)).
+
+Lemma header_ok_split f ind : header_ok f ind = header_vars_ok f ind && attr_lines_ok f.
+Proof. unfold header_ok, header_vars_ok, attr_lines_ok. cbv zeta. btauto. Qed.
+
+Lemma hdr_other_split f ind sd :
+  forallb no_nl (hdr_other f ind sd) = forallb no_nl (hdr_attrs f sd) && forallb no_nl (hdr_vars f ind).
+Proof.
+  unfold hdr_other, hdr_attrs, hdr_vars. cbv zeta. rewrite !forallb_app. cbn [forallb].
+  rewrite (no_nl_zstr (Z.of_nat (length (myattrs f)))). change (no_nl (s2z "0")) with true. btauto.
+Qed.
+
+Lemma data_col0 f ind iv :
+  forallb (fun v => Nat.eqb (length (v_cells v)) (length (v_cells iv))) (depvars ind f) = true ->
+  column 0 (wrows f ind iv) = map fmt6e (filled iv).
+Proof.
+  intros Hlen. unfold wrows. rewrite column_map.
+  rewrite (column_transpose _ (filled iv :: map filled (depvars ind f)) 0); [reflexivity| |cbn [length]; lia].
+  constructor; [unfold filled; apply map_length|]. apply Forall_forall. intros c Hin.
+  apply in_map_iff in Hin as (v & <- & Hin). unfold filled. rewrite map_length.
+  rewrite forallb_forall in Hlen. apply Nat.eqb_eq, Hlen, Hin.
+Qed.
+
+(* VARIABLE PART OF THE CLOSURE: the file that is read back satisfies every variable-dependent side
+   condition that the original file satisfied (whatever its attribute list A is) *)
+Lemma side_conditions_closed_vars A f ind iv :
+  find_var ind f = Some iv -> vars_ok f ind iv = true ->
+  find_var ind (refile A f ind iv) = Some (revar iv) /\ vars_ok (refile A f ind iv) ind (revar iv) = true.
+Proof.
+  intros Hf Hok.
+  assert (Hname : v_name iv = ind).
+  { unfold find_var in Hf. apply find_some in Hf as [_ E]. apply str_eqb_eq in E. exact E. }
+  split; [apply refile_find, Hname|].
+  set (f2 := refile A f ind iv).
+  assert (Ed : depvars ind f2 = map revar (depvars ind f)) by (apply refile_deps, Hname).
+  assert (Eline : indep_line f2 ind = indep_line f ind).
+  { unfold indep_line. unfold f2. rewrite (refile_find _ _ _ _ Hname), Hf. reflexivity. }
+  unfold vars_ok in *. apply andb_true_iff in Hok as [Hok Hnl]. apply andb_true_iff in Hok as [Hok Hsp].
+  apply andb_true_iff in Hok as [Hhv Hd].
+  (* list-level identities *)
+  assert (Ecodes : map code_str (map revar (depvars ind f)) = map code_str (depvars ind f)) by (rewrite map_map; apply map_ext; reflexivity).
+  assert (Enames : map v_name (map revar (depvars ind f)) = map v_name (depvars ind f)) by (rewrite map_map; apply map_ext; reflexivity).
+  assert (Edesc : map (fun v => join sep [v_name v; units_str v]) (map revar (depvars ind f))
+                  = map (fun v => join sep [v_name v; units_str v]) (depvars ind f)) by (rewrite map_map; apply map_ext; reflexivity).
+  assert (Eones : map (fun _ : var => s2z "1") (map revar (depvars ind f)) = map (fun _ : var => s2z "1") (depvars ind f))
+    by (rewrite map_map; reflexivity).
+  assert (Hhv2 : header_vars_ok f2 ind = true).
+  { assert (Edok : forallb desc_ok (map revar (depvars ind f)) = forallb desc_ok (depvars ind f))
+      by (rewrite forallb_map_comp; apply forallb_ext_all; reflexivity).
+    unfold header_vars_ok in *. cbv zeta in *. rewrite Ed, Ecodes, Enames, Edok.
+    destruct (depvars ind f) as [|d0 dt]; [discriminate|]. cbn [map]. cbn [map] in Hhv. exact Hhv. }
+  assert (Hlen : forallb (fun v => Nat.eqb (length (v_cells v)) (length (v_cells iv))) (depvars ind f) = true).
+  { unfold data_ok in Hd. apply andb_true_iff in Hd as [Hd _]. apply andb_true_iff in Hd as [Hd _].
+    apply andb_true_iff in Hd as [_ H]. exact H. }
+  assert (Hlen2 : forallb (fun v => Nat.eqb (length (v_cells v)) (length (v_cells (revar iv)))) (depvars ind f2) = true).
+  { rewrite Ed, forallb_map_comp. cbn [revar v_cells]. rewrite !map_length.
+    erewrite forallb_ext_all; [exact Hlen|]. intros x. cbn. rewrite !map_length. reflexivity. }
+  assert (Hd2 : data_ok f2 ind (revar iv) = true).
+  { unfold data_ok in *. apply andb_true_iff in Hd as [Hd Ht]. apply andb_true_iff in Hd as [Hd Hu].
+    apply andb_true_iff in Hd as [Hrec _].
+    rewrite Hlen2, (data_col0 _ _ _ Hlen2), revar_filled, <- (data_col0 _ _ _ Hlen), Ht.
+    rewrite Ed, Enames, Hu. cbn [revar v_cells]. rewrite !map_length, Hrec. reflexivity. }
+  assert (Hsp2 : spec_ok f2 ind (revar iv) = true).
+  { assert (Eun : forall l, forallb (fun v => match v_units v with Some _ => true | None => false end) (map revar l)
+                            = forallb (fun v => match v_units v with Some _ => true | None => false end) l)
+      by (intros l; rewrite forallb_map_comp; apply forallb_ext_all; reflexivity).
+    assert (Ecf : forall l, forallb (fun v => cells_fine (code_val v) v) (map revar l) = forallb (fun v => cells_fine (code_val v) v) l)
+      by (intros l; rewrite forallb_map_comp; apply forallb_ext_all; intros x; apply revar_cells_fine).
+    unfold spec_ok in *. rewrite Ed, Eline. destruct (depvars ind f) as [|d0 dt]; [discriminate|]. cbn [map].
+    change (revar d0 :: map revar dt) with (map revar (d0 :: dt)). rewrite Eun, Ecf, revar_cells_fine.
+    exact Hsp. }
+  assert (Hnl2 : forallb no_nl (hdr_vars f2 ind) = true).
+  { unfold hdr_vars in *. cbv zeta in *. rewrite Ed, Eline, Ecodes, Enames, Edesc, Eones, map_length. exact Hnl. }
+  rewrite Hhv2, Hd2, Hsp2, Hnl2. reflexivity.
+Qed.
+
+Lemma impl_write_some f ind sd iv :
+  indep_name f = Some ind -> get_attr (s2z "SDATE") (f_attrs f) = Some sd -> find_var ind f = Some iv ->
+  exists n ls, impl_write f = Some (n, ls).
+Proof. intros Hi Hs Hf. unfold impl_write. rewrite Hi, Hs, Hf. eexists. eexists. reflexivity. Qed.
+
+(* SECOND CYCLE ON WHOLE FILES with the variable part of the closure discharged: hypotheses on f, plus only
+   the four ATTRIBUTE facts about the file read back (INDEPENDENT_VARIABLE and SDATE present, the fixed
+   attribute lines and comment keys free of line breaks, no comment line starting with a blank) *)
+Lemma second_cycle_whole_attrs f n ls ind sd iv r1 sd2 :
+  impl_write f = Some (n, ls) ->
+  indep_name f = Some ind -> get_attr (s2z "SDATE") (f_attrs f) = Some sd -> find_var ind f = Some iv ->
+  forallb no_nl (hdr_other f ind sd) = true ->
+  header_ok f ind = true -> data_ok f ind iv = true -> spec_ok f ind iv = true ->
+  impl_roundtrip f = Some r1 ->
+  let f2 := to_file r1 in
+  indep_name f2 = Some ind -> get_attr (s2z "SDATE") (f_attrs f2) = Some sd2 ->
+  forallb no_nl (hdr_attrs f2 sd2) = true -> attr_lines_ok f2 = true ->
+  exists r2, impl_second f = Some r2 /\ r_vars r2 = r_vars r1 /\ spec_roundtrip f = Some (r_vars r1).
+Proof.
+  intros W Hi Hs Hf Hn Hok Hd Hsp R1 f2 Hi2 Hs2 Hna Hal.
+  destruct (roundtrip_whole_spec _ _ _ _ _ _ W Hi Hs Hf Hn Hok Hd Hsp) as (A & sp & R & S).
+  pose proof R1 as R1'. rewrite R in R1'. injection R1' as E1.
+  assert (Ef2 : f2 = refile A f ind iv).
+  { unfold f2. rewrite <- E1. apply (to_file_refile f ind iv sp n A Hi Hf S). }
+  (* variable part *)
+  assert (Hv : vars_ok f ind iv = true).
+  { unfold vars_ok. rewrite header_ok_split in Hok. apply andb_true_iff in Hok as [Hok _].
+    rewrite hdr_other_split in Hn. apply andb_true_iff in Hn as [_ Hn]. rewrite Hok, Hd, Hsp, Hn. reflexivity. }
+  destruct (side_conditions_closed_vars A f ind iv Hf Hv) as [Hf2 Hv2]. rewrite <- Ef2 in Hf2, Hv2.
+  unfold vars_ok in Hv2. apply andb_true_iff in Hv2 as [Hv2 Hnv2]. apply andb_true_iff in Hv2 as [Hv2 Hsp2].
+  apply andb_true_iff in Hv2 as [Hhv2 Hd2].
+  destruct (impl_write_some _ _ _ _ Hi2 Hs2 Hf2) as (n2 & ls2 & W2).
+  apply (second_cycle_whole f n ls ind sd iv r1 n2 ls2 sd2 (revar iv) W Hi Hs Hf Hn Hok Hd Hsp R1 W2 Hi2 Hs2 Hf2).
+  - rewrite hdr_other_split. fold f2. rewrite Hna, Hnv2. reflexivity.
+  - rewrite header_ok_split. fold f2. rewrite Hhv2, Hal. reflexivity.
+  - exact Hd2.
+  - exact Hsp2.
+Qed.
